@@ -10,12 +10,17 @@
 //	(parse "expr")                          port.RangesFromExpression
 //	(mk PORTS CLASS)                        makeTaskForMesosResources on an offer with these ports (hook, synchronous)
 //	(round (CLASS…) ROOTCTS (OFFER…) (DESC…))    one whole OFFERS event through schedulerState.resourceOffers (hook)
+//	(hist STEP…)                            a HISTORY on ONE manager: per step a workflow load (every listed class goes through
+//	                                        Classes.UpdateClass, as the loop of Manager.RefreshClasses does) and then one whole
+//	                                        OFFERS event as in `round`; the class store is the state carried from step to step.
+//	                                        STEP = (((KEY CLASS)…) ROOTCTS (OFFER…) (DESC…)); KEY n = class name cls<n>;
+//	                                        here CLASS has a sixth field, the command value, and DESC names a KEY (or -)
 //
 //	ATTRS  = nil | ((name value) | (name) …)        (name) = non-text attribute
 //	CTS    = ((attribute value operator) …)         operator 0 = Equals
 //	CPU/MEM= - | n   in QUARTER units (n/4 cpus, n/4 MB); PORTS = - | RANGES; RANGES = ((begin end) …)
 //	INB    = (1|0 …)  inbound channels, 1 = tcp, 0 = ipc
-//	CLASS  = (CTS CPU MEM "ports expression" INB)   built by unmarshalling template YAML with the repo's unmarshallers
+//	CLASS  = (CTS CPU MEM "ports expression" INB ["command"])   built by unmarshalling template YAML with the repo's unmarshallers
 //	OFFER  = (ATTRS (CPU MEM PORTS))                offer i has id o<i>
 //	DESC   = ((LEVEL…) CLASSINDEX|-)                constraint lists from the task role up to, not including, the root
 //
@@ -201,7 +206,11 @@ func ctsYAML(b *strings.Builder, ind string, cts *sx.Node) {
 // CLASS -> *taskclass.Class through the template unmarshaller (ResourceWants.UnmarshalYAML → RangesFromExpression)
 func classOf(name string, c *sx.Node) (*taskclass.Class, error) {
 	var b strings.Builder
-	fmt.Fprintf(&b, "name: %s\ncontrol:\n  mode: direct\ncommand:\n  value: \"true\"\n  user: \"nobody\"\n  shell: true\n", yq(name))
+	cmd := "true"
+	if c.Len() > 5 {
+		cmd = c.At(5).Str()
+	}
+	fmt.Fprintf(&b, "name: %s\ncontrol:\n  mode: direct\ncommand:\n  value: %s\n  user: \"nobody\"\n  shell: true\n", yq(name), yq(cmd))
 	fmt.Fprintf(&b, "wants:\n  cpu: %s\n  memory: %s\n", yq(qStr(c.At(1).Int())), yq(qStr(c.At(2).Int())))
 	if e := c.At(3).Str(); e != "" {
 		fmt.Fprintf(&b, "  ports: %s\n", yq(e))
@@ -466,23 +475,33 @@ func roundPayload(in *sx.Node) (*sx.Node, error) {
 		}
 		classes[fmt.Sprintf("cls%d", i)] = cl
 	}
+	vs, err := task.VerifNewScheduler(classes)
+	if err != nil {
+		return nil, err
+	}
+	return roundOn(vs, in.At(2), in.At(3), in.At(4), func(ci int) int { return in.At(1).At(ci).At(4).Len() })
+}
+
+// roundOn: one OFFERS event with a deployment request on the manager `vs` as it is now (its class store is whatever was
+// loaded into it). nInbOf(k) = an upper bound of the number of inbound channels (ch0, ch1, …) a task of class k can have.
+func roundOn(vs *task.VerifScheduler, rootCts, offersN, descsN *sx.Node, nInbOf func(int) int) (*sx.Node, error) {
 	var chains [][]*sx.Node
 	var loads []string
 	var nInb []int
-	for _, d := range in.At(4).List {
+	for _, d := range descsN.List {
 		chains = append(chains, d.At(0).List)
 		if ci := d.At(1); ci.Str() == "-" {
 			loads = append(loads, "missing")
 			nInb = append(nInb, 0)
 		} else {
 			loads = append(loads, fmt.Sprintf("cls%d", ci.Int()))
-			nInb = append(nInb, in.At(1).At(ci.Int()).At(4).Len())
+			nInb = append(nInb, nInbOf(ci.Int()))
 		}
 	}
 	var ds task.Descriptors
 	if len(chains) > 0 {
 		var err error
-		_, ds, err = buildTree(in.At(2), chains, loads)
+		_, ds, err = buildTree(rootCts, chains, loads)
 		if err != nil {
 			return nil, err
 		}
@@ -492,17 +511,15 @@ func roundPayload(in *sx.Node) (*sx.Node, error) {
 		idx[d] = i
 	}
 	var offers []mesos.Offer
-	for i, o := range in.At(3).List {
+	for i, o := range offersN.List {
 		offers = append(offers, offerOf(i, attrsOf(o.At(0)), resOf(o.At(1))))
 	}
-	vs, err := task.VerifNewScheduler(classes)
-	if err != nil {
-		return nil, err
-	}
+	firstCall := len(vs.Calls) // no handler is running: every call of earlier rounds has been recorded
 	out, err := vs.OffersRound(ds, offers)
 	if err != nil {
 		return nil, err
 	}
+	roundCalls := vs.Calls[firstCall:] // the handler waits for its per-offer goroutines and sends ACCEPT/DECLINE itself
 	byTask := map[string]*task.Task{}
 	for t := range out.Deployed {
 		byTask[t.GetTaskId()] = t
@@ -514,7 +531,7 @@ func roundPayload(in *sx.Node) (*sx.Node, error) {
 	}
 	var accs []acc
 	var decl []int
-	for _, c := range vs.Calls {
+	for _, c := range roundCalls {
 		switch c.GetType() {
 		case scheduler.Call_ACCEPT:
 			a := c.GetAccept()
@@ -563,9 +580,120 @@ func roundPayload(in *sx.Node) (*sx.Node, error) {
 	return sx.L(sx.A("round"), an, dn, un, xn), nil
 }
 
+// ---- a history of loads and rounds on one manager ----------------------------------------------------
+
+// histMaxInb: upper bound of the inbound channels per class key over every definition in the input
+func histMaxInb(in *sx.Node) map[int]int {
+	m := map[int]int{}
+	for _, st := range in.List[1:] {
+		for _, ld := range st.At(0).List {
+			if n := ld.At(1).At(4).Len(); n > m[ld.At(0).Int()] {
+				m[ld.At(0).Int()] = n
+			}
+		}
+	}
+	return m
+}
+
+// payload: (hist ROUNDPAYLOAD…), one `round` payload per step.
+// The manager is made once, with an empty class store. Per step every (KEY CLASS) goes, in order, through
+// taskclass.Classes.UpdateClass of the manager's store — Manager.VerifC13AddClass is exactly that call, the body of the
+// loop of Manager.RefreshClasses (which itself needs a template repository on disk to read the YAML from) — each time with
+// a class freshly unmarshalled from template YAML, as a workflow load does. Then the OFFERS handler runs as in `round`.
+func histPayload(in *sx.Node) (*sx.Node, error) {
+	vs, err := task.VerifNewScheduler(nil)
+	if err != nil {
+		return nil, err
+	}
+	maxInb := histMaxInb(in)
+	out := sx.L(sx.A("hist"))
+	for _, st := range in.List[1:] {
+		for _, ld := range st.At(0).List {
+			key := fmt.Sprintf("cls%d", ld.At(0).Int())
+			cl, err := classOf(key, ld.At(1))
+			if err != nil {
+				return nil, err
+			}
+			vs.Manager.VerifC13AddClass(key, cl)
+		}
+		p, err := roundOn(vs, st.At(1), st.At(2), st.At(3), func(k int) int { return maxInb[k] })
+		if err != nil {
+			return nil, err
+		}
+		out.Add(p)
+	}
+	return out, nil
+}
+
+// histCrashRisk: roundCrashRisk for every step, against every definition a class key gets anywhere in the history
+// (the store may hold any of them on a tree that does not follow the latest one).
+func histCrashRisk(in *sx.Node) bool {
+	defs := map[int][]*sx.Node{}
+	for _, st := range in.List[1:] {
+		for _, ld := range st.At(0).List {
+			defs[ld.At(0).Int()] = append(defs[ld.At(0).Int()], ld.At(1))
+		}
+	}
+	for _, st := range in.List[1:] {
+		// worst case per descriptor: try each definition of its class alone
+		worst := sx.L()
+		classes := sx.L()
+		for _, d := range st.At(3).List {
+			ci := d.At(1)
+			if ci.Str() == "-" || len(defs[ci.Int()]) == 0 {
+				worst.Add(sx.L(d.At(0), sx.A("-")))
+				continue
+			}
+			// the definition that needs most high ports
+			best, bestNeed := defs[ci.Int()][0], -1
+			for _, c := range defs[ci.Int()] {
+				need := 0
+				for _, ch := range c.At(4).List {
+					if ch.Bool() {
+						need++
+					}
+				}
+				if rs, err := port.RangesFromExpression(c.At(3).Str()); err == nil {
+					for _, r := range rs {
+						if r.End >= 30000 && r.End >= r.Begin {
+							b := r.Begin
+							if b < 30000 {
+								b = 30000
+							}
+							need += int(r.End-b) + 1
+						}
+					}
+				}
+				if need > bestNeed {
+					best, bestNeed = c, need
+				}
+			}
+			worst.Add(sx.L(d.At(0), sx.I(classes.Len())))
+			classes.Add(best)
+		}
+		if roundCrashRisk(sx.L(sx.A("round"), classes, st.At(1), st.At(2), worst)) {
+			return true
+		}
+	}
+	return false
+}
+
+func payloadOf(in *sx.Node) (*sx.Node, error) {
+	if in.At(0).Str() == "hist" {
+		return histPayload(in)
+	}
+	return roundPayload(in)
+}
+
 func runRound(in *sx.Node, raw string) (string, error) {
-	if !roundCrashRisk(in) {
-		p, err := roundPayload(in)
+	risk := false
+	if in.At(0).Str() == "hist" {
+		risk = histCrashRisk(in)
+	} else {
+		risk = roundCrashRisk(in)
+	}
+	if !risk {
+		p, err := payloadOf(in)
 		if err != nil {
 			return "", err
 		}
@@ -598,7 +726,7 @@ func childRound(args []string) {
 		fmt.Fprintln(os.Stderr, err)
 		os.Exit(3)
 	}
-	p, err := roundPayload(in)
+	p, err := payloadOf(in)
 	if err != nil {
 		fmt.Fprintln(os.Stderr, err)
 		os.Exit(3)
@@ -628,7 +756,7 @@ func runImpl(input string) (string, error) {
 		return runParse(in)
 	case "mk":
 		return runMk(in)
-	case "round":
+	case "round", "hist":
 		return runRound(in, input)
 	}
 	return "", fmt.Errorf("unknown case kind %q", in.At(0).Str())
